@@ -178,7 +178,7 @@ impl Sat {
       return Err(ErrorKind::PeriodOffset.error(degree));
     }
 
-    let cycle_start_epoch = cycle_number * CYCLE_EPOCHS;
+    let cycle_start_epoch = cycle_number.saturating_mul(CYCLE_EPOCHS);
 
     const HALVING_INCREMENT: u32 = SUBSIDY_HALVING_INTERVAL % DIFFCHANGE_INTERVAL;
 
@@ -192,9 +192,13 @@ impl Sat {
 
     let epochs_since_cycle_start = relationship % DIFFCHANGE_INTERVAL / HALVING_INCREMENT;
 
-    let epoch = cycle_start_epoch + epochs_since_cycle_start;
+    let epoch = cycle_start_epoch.saturating_add(epochs_since_cycle_start);
 
-    let height = Height(epoch * SUBSIDY_HALVING_INTERVAL + epoch_offset);
+    let height = Height(
+      epoch
+        .saturating_mul(SUBSIDY_HALVING_INTERVAL)
+        .saturating_add(epoch_offset),
+    );
 
     let (block_offset, rest) = match rest.split_once('‴') {
       Some((block_offset, rest)) => (
